@@ -48,6 +48,18 @@ impl TElt for i32 {
     }
     const NAME: &'static str = "i32";
 }
+impl TElt for i16 {
+    fn of(x: f64) -> i16 {
+        x.round().clamp(-30000.0, 30000.0) as i16
+    }
+    const NAME: &'static str = "i16";
+}
+impl TElt for u8 {
+    fn of(x: f64) -> u8 {
+        x.round().clamp(0.0, 255.0) as u8
+    }
+    const NAME: &'static str = "u8";
+}
 
 struct Batch {
     n: usize,
@@ -247,6 +259,30 @@ fn tracker_histories<T: TElt>(params: &Value, ws: bool) -> Outcome {
 }
 
 struct TrackerHistories;
+impl TrackerHistories {
+    fn execute_inner(&self, p: &Value, ws: bool) -> Outcome {
+        match ps(p, "elt") {
+            "f32" => tracker_histories::<f32>(p, ws),
+            "i32" => {
+                // integer states: use a scale that survives rounding; half of the runs in a range whose
+                // squares do not fit the integer type (but fit f32 comfortably)
+                let big = pu(p, "gseed") % 2 == 0;
+                let (smin, mmax) = if big { (20_000.0, 100_000.0) } else { (5.0, 50.0) };
+                let p2 = with(&with(p, "sigma", fbits(pf(p, "sigma").max(smin).min(smin * 4.0))), "mu", fbits(pf(p, "mu").clamp(-mmax, mmax)));
+                tracker_histories::<i32>(&p2, ws)
+            }
+            "i16" => {
+                let p2 = with(&with(p, "sigma", fbits(pf(p, "sigma").clamp(20.0, 60.0))), "mu", fbits(pf(p, "mu").clamp(-300.0, 300.0)));
+                tracker_histories::<i16>(&p2, ws)
+            }
+            "u8" => {
+                let p2 = with(&with(&with(p, "sigma", fbits(pf(p, "sigma").clamp(6.0, 12.0))), "mu", fbits(pf(p, "mu").abs().clamp(60.0, 120.0))), "shift", fbits(pf(p, "shift").min(0.5)));
+                tracker_histories::<u8>(&p2, ws)
+            }
+            _ => tracker_histories::<f64>(p, ws),
+        }
+    }
+}
 impl Scenario for TrackerHistories {
     fn name(&self) -> &'static str {
         "tracker_histories"
@@ -261,23 +297,36 @@ impl Scenario for TrackerHistories {
             _ => g.usize(601, 5000),
         };
         let sigma = g.log_uniform(1e-2, 1e2);
-        json!({"elt": *g.pick(&["f64", "f32", "f32", "i32"]), "chains": g.usize(2, 16), "params": g.usize(1, 8), "n": n,
+        json!({"elt": *g.pick(&["f64", "f32", "f32", "i32", "i32", "i16", "u8"]), "chains": g.usize(2, 16), "params": g.usize(1, 8), "n": n,
                "mu": fbits(sigma * g.f64_in(-10.0, 10.0)), "sigma": fbits(sigma), "shift": fbits(if g.bool(1, 2) { 0.0 } else { g.f64_in(0.1, 3.0) }),
                "hold": if g.bool(1, 3) { g.usize(2, 5) } else { 1 }, "gseed": g.u64()})
     }
     fn execute(&self, p: &Value, ws: bool) -> Outcome {
-        match ps(p, "elt") {
-            "f32" => tracker_histories::<f32>(p, ws),
-            "i32" => {
-                // integer states: use a scale that survives rounding
-                let p2 = with(&with(p, "sigma", fbits(pf(p, "sigma").max(5.0))), "mu", fbits(pf(p, "mu").clamp(-50.0, 50.0)));
-                tracker_histories::<i32>(&p2, ws)
+        // a panic inside a tracker (e.g. arithmetic overflow on an integer element type) is an observation
+        let _ = mcmc_sim::sim::take_last_panic();
+        match std::panic::catch_unwind(std::panic::AssertUnwindSafe(|| self.execute_inner(p, ws))) {
+            Ok(o) => o,
+            Err(_) => {
+                let m = mcmc_sim::sim::take_last_panic().unwrap_or_default();
+                let loc = m.rsplit(" @ ").next().unwrap_or("").to_string();
+                let mut o = Outcome::default();
+                o.hash = str_hash(&p.to_string());
+                o.nontrivial = true;
+                o.violate("panic", &format!("tracker[{}]:panic@{loc}", ps(p, "elt")), format!("tracker update history on {} states panicked: {m}", ps(p, "elt")));
+                o
             }
-            _ => tracker_histories::<f64>(p, ws),
         }
     }
+
     fn shrink(&self, p: &Value) -> Vec<Value> {
         let mut out = vec![];
+        if ps(p, "elt") != "f64" && ps(p, "elt") != "f32" {
+            // keep integer element types (their value ranges matter)
+            shrink_int(p, "n", 2, &mut out);
+            shrink_int(p, "chains", 2, &mut out);
+            shrink_int(p, "params", 1, &mut out);
+            return out;
+        }
         shrink_int(p, "n", 2, &mut out);
         shrink_int(p, "chains", 2, &mut out);
         shrink_int(p, "params", 1, &mut out);
